@@ -729,9 +729,29 @@ func (multi *MultiEpoch) StreamTransactions(params *old_faithful_grpc.StreamTran
 	if len(epochNums) == 0 {
 		klog.V(2).Info("No gsfa readers were loaded")
 		gsfaReadersLoaded = false
+	} else if len(epochNums) < multi.countEpochsInSlotRange(startSlot, endSlot) {
+		// The address index covers only part of the loaded epochs of the range: an index query would
+		// silently miss the transactions of the other epochs, so scan the blocks instead.
+		klog.V(2).Info("Not every loaded epoch of the range has a gsfa reader; scanning blocks")
+		gsfaReadersLoaded = false
 	}
 
 	return multi.processSlotTransactions(ctx, ser, startSlot, endSlot, params.Filter, gsfaReader, gsfaReadersLoaded)
+}
+
+// countEpochsInSlotRange returns the number of loaded epochs that overlap the slot range.
+func (multi *MultiEpoch) countEpochsInSlotRange(startSlot, endSlot uint64) int {
+	multi.mu.RLock()
+	defer multi.mu.RUnlock()
+	startEpoch := slottools.CalcEpochForSlot(startSlot)
+	endEpoch := slottools.CalcEpochForSlot(endSlot)
+	n := 0
+	for epochNum := range multi.epochs {
+		if epochNum >= startEpoch && epochNum <= endEpoch {
+			n++
+		}
+	}
+	return n
 }
 
 func (multi *MultiEpoch) processSlotTransactions(
